@@ -2189,13 +2189,19 @@ return 1;""",
         """
         lines = []
         if self.language == "c":
-            alloc = var + " = malloc(sizeof({cxx_type}));"
+            if as_type == "struct":
+                # Members not passed to the constructor must not be
+                # left uninitialized (fixed-size arrays).
+                alloc = var + " = calloc(1, sizeof({cxx_type}));"
+            else:
+                alloc = var + " = malloc(sizeof({cxx_type}));"
             del_lines = ["free(ptr);"]
         else:
             if as_type == "vector":
                 alloc = var + " = new {cxx_type};"
             elif as_type == "struct":
-                alloc = var + " = new {namespace_scope}{cxx_type};"
+                # value-initialize: zero the members of a POD struct.
+                alloc = var + " = new {namespace_scope}{cxx_type}();"
             else:
                 alloc = var + " = new {namespace_scope}{cxx_type}({PY_call_list});"
             del_lines = [
